@@ -196,7 +196,7 @@ def build_and_audit(log):
             txt = pa.stdout + pa.stderr
             res["audit_raw_tail"] = txt[-2000:]
             # "'SpecVerif.C01.foo' depends on axioms: [propext, ...]" / "does not depend on any axioms"
-            for m in re.finditer(r"'SpecVerif\.(C\d\d)\.([^']+)' (depends on axioms: \[([^\]]*)\]|does not depend on any axioms)", txt, flags=re.S):
+            for m in re.finditer(r"'SpecVerif\.(C\d\d)\.(\S+)' (depends on axioms: \[([^\]]*)\]|does not depend on any axioms)", txt, flags=re.S):
                 pr, th, _, axs = m.groups()
                 axl = [a.strip() for a in axs.replace("\n", " ").split(",")] if axs else []
                 res["audit"].setdefault(pr, {})[th] = [a for a in axl if a]
